@@ -106,7 +106,6 @@ Section Routes.
   Variable K : Type.
   Variable K_eqb : K -> K -> bool.
   Variable H : bytes -> K.
-  Variable salt_fq salt_fz salt_cut : K -> K.
 
   Notation store := (store K).
   Notation lookup_by_key := (lookup_by_key K K_eqb).
@@ -116,10 +115,7 @@ Section Routes.
   Notation scoped_probe := (scoped_probe K K_eqb H).
   Notation scoped_lookup := (scoped_lookup K K_eqb H).
   Notation wire_chase := (wire_chase K K_eqb H).
-  Notation failure_lookup := (failure_lookup K K_eqb H salt_fq salt_fz).
-  Notation failure_lookup_wire := (failure_lookup_wire K K_eqb H salt_fq salt_fz).
   Notation cut_lookup := (cut_lookup K).
-  Notation cut_lookup_wire := (cut_lookup_wire K K_eqb H salt_cut).
 
   (* ---- Store.Lookup / LookupByKeyVerified (resolver-internal lookups, Store.Get) *)
   Lemma store_lookup_sound (s : store) q cd e :
@@ -155,6 +151,16 @@ Section Routes.
     - intros Hs. destruct (IH Hs) as [bits [Hb Hsc]]. exists bits. split; [lia|exact Hsc].
   Qed.
 
+  Lemma scoped_probe_in (s : store) q cd is4 addr n e sc :
+    scoped_probe s q cd is4 addr n = Some (e, sc) -> exists k, lookup_by_key s k = Some e.
+  Proof.
+    induction n as [|n IH]; [discriminate|]. cbn [Model.scoped_probe].
+    destruct (N.of_nat (S n) <? scoped_probe_floor); [discriminate|].
+    destruct (lookup_by_key s _) as [e'|] eqn:El.
+    - intros He. inversion He; subst. eexists. exact El.
+    - exact IH.
+  Qed.
+
   Lemma addr_prefix_audience is4 addr bits cbits e :
     1 <= bits <= cbits ->
     e_scope e = normalize_scope (Some (addr_prefix is4 addr bits)) ->
@@ -162,7 +168,8 @@ Section Routes.
   Proof.
     intros Hb He. unfold audience_ok. rewrite He. cbn [normalize_scope addr_prefix sc_bits].
     destruct (bits =? 0) eqn:E0; [apply N.eqb_eq in E0; lia|].
-    exists (mk_scope is4 cbits addr). cbn [sc_bits sc_is4 sc_addr masked]. repeat split; try lia.
+    exists (mk_scope is4 cbits addr). unfold masked, addr_prefix. cbn [sc_bits sc_is4 sc_addr].
+    split; [reflexivity|]. split; [lia|]. split; [lia|].
     unfold scope_contains. cbn [sc_is4 sc_bits sc_addr]. rewrite Bool.eqb_reflx. cbn [andb].
     rewrite !mask_bytes_idem. apply bytes_eqb_refl.
   Qed.
@@ -249,7 +256,33 @@ Section Routes.
     - intros Hl. inversion Hl. constructor.
   Qed.
 
+  (* ---- subtree cuts *)
+  Lemma cut_get_spec name qc l c :
+    cut_get name qc l = Some c -> c_name c = name /\ c_class c = qc.
+  Proof.
+    induction l as [|c' r IH]; cbn; [discriminate|].
+    destruct (bytes_eqb (c_name c') name && (c_class c' =? qc)) eqn:E.
+    - intros Hc. inversion Hc; subst. apply andb_prop in E. destruct E as [E1 E2].
+      apply bytes_eqb_eq in E1. apply N.eqb_eq in E2. tauto.
+    - exact IH.
+  Qed.
+
+  Lemma cut_lookup_sound (s : store) q c :
+    cut_lookup s q = Some c ->
+    c_active c = true /\ In (c_name c) (label_suffixes (canonical (q_name q))) /\ c_class c = q_class q /\ q_class q <> 0.
+  Proof.
+    unfold Model.cut_lookup. destruct (q_class q =? 0) eqn:E0; [discriminate|]. apply N.eqb_neq in E0.
+    intros Hc. apply first_some_spec in Hc. destruct Hc as [cand [Hin Hc]].
+    destruct (cut_get cand (q_class q) _) as [c'|] eqn:Eg; [|discriminate].
+    destruct (c_active c') eqn:Ea; [|discriminate]. inversion Hc; subst c'.
+    apply cut_get_spec in Eg. destruct Eg as [Hn Hcl]. subst cand. tauto.
+  Qed.
+
   (* ---- failure cache *)
+  Section Salted.
+  Variable salt_fq salt_fz : K -> K.
+  Notation failure_lookup := (failure_lookup K K_eqb H salt_fq salt_fz).
+  Notation failure_lookup_wire := (failure_lookup_wire K K_eqb H salt_fq salt_fz).
   Definition failure_hit_ok (fe : fentry) (name : bytes) (qt qc : N) (cd : bool) (p : option scope) : Prop :=
     f_active fe = true /\
     ((f_kind fe = FQuestion /\ q_name (f_q fe) = canonical name /\ q_type (f_q fe) = qt /\ q_class (f_q fe) = qc /\
@@ -353,27 +386,11 @@ Section Routes.
       split; [exact Ha|]. right. tauto.
   Qed.
 
-  (* ---- subtree cuts *)
-  Lemma cut_get_spec name qc l c :
-    cut_get name qc l = Some c -> c_name c = name /\ c_class c = qc.
-  Proof.
-    induction l as [|c' r IH]; cbn; [discriminate|].
-    destruct (bytes_eqb (c_name c') name && (c_class c' =? qc)) eqn:E.
-    - intros Hc. inversion Hc; subst. apply andb_prop in E. destruct E as [E1 E2].
-      apply bytes_eqb_eq in E1. apply N.eqb_eq in E2. tauto.
-    - exact IH.
-  Qed.
+  End Salted.
 
-  Lemma cut_lookup_sound (s : store) q c :
-    cut_lookup s q = Some c ->
-    c_active c = true /\ In (c_name c) (label_suffixes (canonical (q_name q))) /\ c_class c = q_class q /\ q_class q <> 0.
-  Proof.
-    unfold Model.cut_lookup. destruct (q_class q =? 0) eqn:E0; [discriminate|]. apply N.eqb_neq in E0.
-    intros Hc. apply first_some_spec in Hc. destruct Hc as [cand [Hin Hc]].
-    destruct (cut_get cand (q_class q) _) as [c'|] eqn:Eg; [|discriminate].
-    destruct (c_active c') eqn:Ea; [|discriminate]. inversion Hc; subst c'.
-    apply cut_get_spec in Eg. destruct Eg as [Hn Hcl]. subst cand. tauto.
-  Qed.
+  Section SaltedCut.
+  Variable salt_cut : K -> K.
+  Notation cut_lookup_wire := (cut_lookup_wire K K_eqb H salt_cut).
 
   Lemma cut_lookup_wire_sound (s : store) w qc c :
     cut_lookup_wire s w qc = Some c ->
@@ -389,6 +406,8 @@ Section Routes.
     apply andb_prop in Em. destruct Em as [H1 H2]. apply N.eqb_eq in H1.
     repeat split; try assumption. exists cand. tauto.
   Qed.
+
+  End SaltedCut.
 
   (* ---- replacement inherits the partition of the entry it replaces *)
   Lemma replace_inherits_partition_lemma (s s' : store) k expected rq id alias :
@@ -520,7 +539,7 @@ Section Routes.
     unfold purge_match. rewrite Hsc. cbn [normalize_scope]. apply N.eqb_neq in Hb. rewrite Hb.
     destruct (q_name (e_q e)) eqn:En; [contradiction|]. cbn [negb andb].
     rewrite Hty, Ht, Hcl, Hc, !N.eqb_refl. cbn [andb].
-    unfold equal_fold_ascii. apply bytes_eqb_eq. rewrite <- En, Hf. exact Hn.
+    unfold equal_fold_ascii. apply bytes_eqb_eq. rewrite Hf. exact Hn.
   Qed.
 
   (* purge removes every variant: afterwards no exact-answer route hits for the
@@ -539,13 +558,7 @@ Section Routes.
       destruct (scoped_lookup _ q' cd client) as [[e sc]|] eqn:Es; [|reflexivity].
       destruct (entry_matches_key e q' cd (Some sc)) eqn:Em; [|reflexivity]. exfalso.
       unfold Model.scoped_lookup in Es. destruct client as [c|]; [|discriminate].
-      assert (Hl : exists k, lookup_by_key (purge K K_eqb H q s) k = Some e).
-      { clear Em. revert Es. generalize (N.to_nat (sc_bits c)). intros n. induction n as [|n IH]; [discriminate|].
-        cbn [Model.scoped_probe]. destruct (N.of_nat (S n) <? scoped_probe_floor); [discriminate|].
-        destruct (lookup_by_key _ _) as [e'|] eqn:El.
-        - intros He. inversion He; subst. eexists. exact El.
-        - exact IH. }
-      destruct Hl as [k Hl]. apply scoped_probe_scope in Es. destruct Es as [bits [Hb Hsc]].
+      destruct (scoped_probe_in _ _ _ _ _ _ _ _ Es) as [k Hl]. apply scoped_probe_scope in Es. destruct Es as [bits [Hb Hsc]].
       apply purge_scoped_gone in Hl.
       rewrite (match_scoped_is_purge_match q q' cd sc e Hn Ht Hc) in Hl; [discriminate| |exact Em].
       subst sc. cbn [addr_prefix sc_bits]. lia.
@@ -588,6 +601,71 @@ Section Routes.
   Qed.
 
 End Routes.
+
+(* ------------------------------------------------------------------ *)
+(* the whole ladder of Cache.ServeDNS and Store.Get: whatever rung answers,
+   an exact-answer reply comes from an entry admitted for the question *)
+Section Pipeline.
+  Variable K : Type.
+  Variable K_eqb : K -> K -> bool.
+  Variable H : bytes -> K.
+  Variable salt_fq salt_fz salt_cut : K -> K.
+
+  Lemma msg_ladder_hit_sound (s : store K) q cd has_ecs client id :
+    msg_ladder K K_eqb H salt_fq salt_fz s q cd has_ecs client = OHit id ->
+    exists e, e_id e = id /\ same_question e (q_name q) (q_type q) (q_class q) cd /\ audience_ok e client.
+  Proof.
+    unfold msg_ladder. destruct (serve_msg_exact K K_eqb H s q cd client) as [e|] eqn:Es.
+    - intros Ho. inversion Ho; subst. exists e. split; [reflexivity|].
+      apply (serve_msg_exact_sound K K_eqb H) in Es. exact Es.
+    - destruct (if cd || has_ecs then None else cut_lookup K s q); [discriminate|].
+      destruct (failure_lookup K K_eqb H salt_fq salt_fz s q cd client); discriminate.
+  Qed.
+
+  (* a subtree cut answers only requests without CD and without ECS, from a denied ancestor-or-self of the same class *)
+  Lemma msg_ladder_cut_sound (s : store K) q cd has_ecs client id :
+    msg_ladder K K_eqb H salt_fq salt_fz s q cd has_ecs client = OCut id ->
+    cd = false /\ has_ecs = false /\
+    exists c, c_id c = id /\ In (c_name c) (label_suffixes (canonical (q_name q))) /\ c_class c = q_class q.
+  Proof.
+    unfold msg_ladder. destruct (serve_msg_exact K K_eqb H s q cd client); [discriminate|].
+    destruct cd; [cbn [orb]; destruct (failure_lookup K K_eqb H salt_fq salt_fz s q true client); discriminate|].
+    destruct has_ecs; [cbn [orb]; destruct (failure_lookup K K_eqb H salt_fq salt_fz s q false client); discriminate|].
+    cbn [orb]. destruct (cut_lookup K s q) as [c|] eqn:Ec.
+    - intros Ho. inversion Ho; subst. split; [reflexivity|]. split; [reflexivity|]. exists c. split; [reflexivity|].
+      apply (cut_lookup_sound K K_eqb H) in Ec. destruct Ec as [_ [Hin [Hc _]]]. split; assumption.
+    - destruct (failure_lookup K K_eqb H salt_fq salt_fz s q false client); discriminate.
+  Qed.
+
+  Lemma serve_pipeline_hit_sound (s : store K) wb w q cd client id :
+    Forall (fun b => b < 256) w ->
+    serve_pipeline K K_eqb H salt_fq salt_fz salt_cut s wb w q cd client = OHit id ->
+    exists e, e_id e = id /\
+      (wire_same_question e w (q_type q) (q_class q) cd \/
+       (same_question e (q_name q) (q_type q) (q_class q) cd /\
+        audience_ok e (option_map (fun c => addr_prefix (sc_is4 c) (sc_addr c) (sc_bits c)) client))).
+  Proof.
+    intros Hb. unfold serve_pipeline.
+    destruct (wb && negb (is_some client)).
+    - destruct (serve_wire_exact K K_eqb H s w (q_type q) (q_class q) cd) as [e|] eqn:Ew.
+      + intros Ho. inversion Ho; subst. exists e. split; [reflexivity|]. left.
+        apply (serve_wire_exact_sound K K_eqb H) in Ew; assumption.
+      + destruct (if cd then None else cut_lookup_wire K K_eqb H salt_cut s w (q_class q)); [discriminate|].
+        destruct (failure_lookup_wire K K_eqb H salt_fq salt_fz s w (q_type q) (q_class q) cd); [discriminate|].
+        intros Ho. apply msg_ladder_hit_sound in Ho. destruct Ho as [e [Hi Hq]]. exists e. split; [exact Hi|]. right. exact Hq.
+    - intros Ho. apply msg_ladder_hit_sound in Ho. destruct Ho as [e [Hi Hq]]. exists e. split; [exact Hi|]. right. exact Hq.
+  Qed.
+
+  Lemma store_get_hit_sound (s : store K) q cd id :
+    store_get K K_eqb H salt_fq salt_fz s q cd = OHit id ->
+    exists e, e_id e = id /\ same_question e (q_name q) (q_type q) (q_class q) cd /\ e_scope e = None.
+  Proof.
+    unfold store_get. destruct (store_lookup K K_eqb H s q cd) as [e|] eqn:Es.
+    - intros Ho. inversion Ho; subst. exists e. split; [reflexivity|]. apply (store_lookup_sound K K_eqb H) in Es. exact Es.
+    - destruct (if cd then None else cut_lookup K s q); [discriminate|].
+      destruct (failure_lookup K K_eqb H salt_fq salt_fz s q cd None); discriminate.
+  Qed.
+End Pipeline.
 
 (* ------------------------------------------------------------------ *)
 (* non-vacuity: a constant hash (every question collides) on a populated store *)
